@@ -330,3 +330,33 @@ Proof.
   unfold contains in Hc. cbn [fst snd] in Hc. apply andb_prop in Hc. destruct Hc as [C1 C2]. apply Z.leb_le in C1, C2. lia.
 Qed.
 End Lines.
+
+(* ---- STACK WIN tables, through the generated insert_win_stack_info and parser-local builder ---- *)
+Lemma win_end_to_end p (l : list winrec) : wf_recs l ->
+  exists t, g_win_table p l = Ret t /\
+    StronglySorted (fun a b => snd (fst a) < fst (fst b)) t /\
+    (forall x w, rm_get t x = Some w ->
+       exists w0, In w0 l /\ wa w0 = wa w /\ wt w0 = wt w /\ 0 < ws w <= ws w0 /\
+                  wa w + ws w < two64 /\ wa w <= x < wa w + ws w) /\
+    (forall la w lb x, l = la ++ w :: lb -> ws w <> 0 -> wa w + ws w < two64 -> wa w <= x < wa w + ws w ->
+       (forall w', In w' (la ++ lb) ->
+          ws w' = 0 \/ two64 <= wa w' + ws w' \/ wa w' + ws w' <= wa w \/ wa w + ws w <= wa w') ->
+       rm_get t x = Some w).
+Proof.
+  intros Hwf. destruct (win_table_total p l Hwf) as [t Ht]. exists t.
+  split; [rewrite g_win_table_eq; exact Ht|].
+  destruct (win_sorted_disjoint p l t Hwf Ht) as [Hs _]. split; [exact Hs|]. split.
+  - intros x w Hg. destruct (win_lookup_sound p l t x w Hwf Ht Hg) as [Hr [Hc [w0 [Hin [Ha [Htg [Hsz _]]]]]]].
+    exists w0. repeat split; try assumption; try lia.
+    + unfold win_range in Hr. apply mk_range_shape in Hr. tauto.
+    + unfold contains in Hc. cbn [fst snd] in Hc. apply andb_prop in Hc. destruct Hc as [C1 _]. apply Z.leb_le in C1. exact C1.
+    + unfold contains in Hc. cbn [fst snd] in Hc. apply andb_prop in Hc. destruct Hc as [_ C2]. apply Z.leb_le in C2. lia.
+  - intros la w lb x El Hs0 Hlt Hx Hiso. subst l.
+    assert (Hw : wf_rec w) by (unfold wf_recs in Hwf; apply Forall_app in Hwf; destruct Hwf as [_ Hwf]; inversion Hwf; assumption).
+    assert (Hr : win_range w = Some (wa w, wa w + ws w - 1)).
+    { unfold win_range. apply mk_range_some; [|exact Hlt]. destruct Hw as [_ [Hw0 _]]. lia. }
+    apply (win_isolated_complete p la w lb _ t x Hwf Hr); [|exact Ht|unfold contains; cbn [fst snd]; apply andb_true_intro; split; apply Z.leb_le; lia].
+    intros w' r' Hin Hr'. unfold win_range in Hr'. apply mk_range_shape in Hr'. destruct Hr' as [Hr' [Hs' Hlt']]. subst r'.
+    specialize (Hiso w' Hin). unfold intersects. cbn [fst snd]. apply andb_false_iff.
+    destruct Hiso as [Hi|[Hi|[Hi|Hi]]]; [exfalso; lia|exfalso; lia|left; apply Z.leb_gt; lia|right; apply Z.leb_gt; lia].
+Qed.
